@@ -174,6 +174,27 @@ PROPS["C17"] = dict(
     assumptions=[],
 )
 
+PROPS["C14"] = dict(
+    level_text="The reading of numeric operands (N equal, +N greater, -N less) and the round-up unit conversion of -size are a small TLA+ module; TLC "
+               "enumerates every unit x operand x file sizes k*unit-1, k*unit, k*unit+1 (symbolic beyond 2^31) and numerals near 2^63/2^64, checks the "
+               "property's own sentences as invariants (exactly one of the three forms per file, monotonicity, -size -1<unit> only empty files, "
+               "-size 1M = 1..2^20 bytes, rounding up) and prints which files each form selects; the real find is run on sparse files of exactly those "
+               "sizes (and on files with given link counts and owner ids); random operands and sizes, and inode numbers as the file system assigns "
+               "them, are validated by TLC.",
+    level_note="Trusted: TLC; the harness's creation of sparse files / hard links / chown and its reading back of inode numbers. TLC integers are 32 bit: "
+               "sizes are k*unit+d symbolically or below 2^31 bytes; operands at 2^63-1, 2^63, 2^64-1 stand for 'larger than anything'. Numerals of "
+               "2^64 and above are left to C11. The time tests' operands are judged in C15.",
+    mc=[dict(module="mc/MC_Num.tla", cfg=dict(quick="mc/MC_Num_quick.cfg", thorough="mc/MC_Num_thorough.cfg"), workers=4)],
+    record=dict(quick=400, thorough=8000),
+    selftest=dict(quick=40, thorough=200),
+    trace=dict(module="trace/T_Num.tla", cfg="trace/T_Num.cfg"),
+    trace_chunk=1000,
+    rule="MC: {c w b k M G, none} x N in 0..NMAX and three huge numerals x {files of k*unit+d bytes for k<=KMAX, d in -1..1; 12 byte sizes around 512, 1024, 2^20}; "
+         "links/uid/gid values 1..4; all three forms per case. Trace: random units, operands, sizes (symbolic and concrete), link counts, ids, inode numbers.",
+    exhaustive_note="bounded-exhaustive",
+    assumptions=[],
+)
+
 _WALK_NOTE = ("Trusted: TLC; the harness's materialisation of tree values (mkdir/symlink) and the in-process call of find_main with captured "
               "output. Unreadable directories cannot be produced as root in-process and are exercised by C11's fixture only. Link targets are "
               "non-links or dangling (no link-to-link chains).")
